@@ -424,4 +424,4 @@ def _do_job(job):
     # tolerated overdraft in lattice units: the run must be rejected when a balance is below -1e-10
     band = int(Fraction(1, 10**10) / U)
     tc = {"Q": Q, "sched": c["sched"], "country": c["country"], "ltcg": c.get("ltcg", 0), "band": band}
-    return {"c": tc, "h": h, "m": m, "lines": lines, "meta": {"conc": conc, "runs": [r[0] for r in results], "msgs": msgs, "overflow": overflow, "neg": c["neg"], "tag": job.get("tag", "")}}
+    return {"c": tc, "h": h, "m": m, "lines": lines, "meta": {"conc": conc, "runs": [r[0] for r in results], "msgs": msgs, "overflow": overflow, "neg": c["neg"], "tag": job.get("tag", ""), "engine_expected": job.get("engine_expected")}}
